@@ -143,6 +143,15 @@ func checkDataMsg(m *hsms.DataMessage, f e37.Fields, b *bodyT) fail {
 	if again := m.ToBytes(); !bytes.Equal(again, got) {
 		return bad("ToBytes-unstable", "second ToBytes differs from the first")
 	}
+	// the buffer a serialiser hands out is the caller's: overwriting it (buffer reuse) must not change
+	// what the message serialises to next time
+	for i := range got {
+		got[i] = 0xEE
+	}
+	got = m.ToBytes()
+	if !bytes.Equal(got, want) {
+		return bad("ToBytes-after-reuse", "ToBytes after the caller overwrote the buffer the first ToBytes returned differs from the E37 frame at offset %d", firstDiff(got, want))
+	}
 	if x := checkAccessors(m, f); x.failed() {
 		return x
 	}
